@@ -179,6 +179,77 @@ def _rule_R19(text, args):
     return rx.subn(lambda m: "vstub_resize_with_default(%s, %s);" % (m.group("x"), m.group("n")), text)
 
 
+def _rule_R20(text, args):
+    # K.chars().next()  ->  vstub_str_first_char(K)        &K[c.len_utf8()..]  ->  vstub_str_after_first_char(K, c)
+    # (Verus has no byte-level str reasoning; the two std behaviours - first character of a string / the string after
+    #  its first character c - are bound to trusted stubs over the string's character sequence)
+    n = 0
+    rx1 = re.compile(r"(?P<k>" + IDENT + r")\.chars\(\)\.next\(\)")
+    text, k = rx1.subn(lambda m: "vstub_str_first_char(%s)" % m.group("k"), text)
+    n += k
+    rx2 = re.compile(r"&(?P<k>" + IDENT + r")\[\s*(?P<c>" + IDENT + r")\.len_utf8\(\)\s*\.\.\s*\]")
+    text, k = rx2.subn(lambda m: "vstub_str_after_first_char(%s, %s)" % (m.group("k"), m.group("c")), text)
+    n += k
+    return text, n
+
+
+def _rule_R21(text, args):
+    # for (a, b) in [ (x1, y1), (x2, y2), ... ] { BODY }   ->   { let (a, b) = (x1, y1); BODY } { let (a, b) = (x2, y2); BODY } ...
+    # (Verus: by-value iteration over an array literal unsupported.  The loop over a LITERAL array is unrolled; sound
+    #  when BODY has no `break` / `continue`, which the rule checks - it refuses otherwise)
+    rx = re.compile(r"for\s+(?P<pat>\([^)]*\))\s+in\s+\[")
+    n = 0
+    while True:
+        m = rx.search(text)
+        if not m:
+            break
+        # the array literal
+        i = m.end()
+        depth, j = 1, i
+        while depth:
+            ch = text[j]
+            if ch in "([{":
+                depth += 1
+            elif ch in ")]}":
+                depth -= 1
+            j += 1
+        arr = text[i:j - 1]
+        # elements: split at top-level commas
+        elems, d, cur = [], 0, ""
+        for ch in arr:
+            if ch in "([{":
+                d += 1
+            elif ch in ")]}":
+                d -= 1
+            if ch == "," and d == 0:
+                elems.append(cur.strip())
+                cur = ""
+            else:
+                cur += ch
+        if cur.strip():
+            elems.append(cur.strip())
+        k = j
+        while text[k].isspace():
+            k += 1
+        if text[k] != "{":
+            raise UnitError("R21: array literal not followed by a loop body")
+        depth, e = 1, k + 1
+        while depth:
+            ch = text[e]
+            if ch == "{":
+                depth += 1
+            elif ch == "}":
+                depth -= 1
+            e += 1
+        body = text[k + 1:e - 1]
+        if re.search(r"\b(break|continue)\b", body):
+            raise UnitError("R21: loop body has break/continue; unrolling is not a faithful rewrite")
+        unrolled = "".join("{ let %s = %s; %s }\n" % (m.group("pat"), el, body) for el in elems)
+        text = text[:m.start()] + unrolled + text[e:]
+        n += 1
+    return text, n
+
+
 def _rule_R6(text, args):
     # path normalisation for the one-file unit: args are from=to pairs (e.g. super::OptionalSpace=OptionalSpace)
     n = 0
@@ -208,7 +279,7 @@ def _rule_R16(text, args):
     return rx.subn(lambda m: 'write!(%s, "{}%s", %s)' % (m.group(1), m.group(3), m.group(2)), text)
 
 
-RULES = {"R19": _rule_R19, "R18": _rule_R18, "R17": _rule_R17, "R16": _rule_R16, "R15": _rule_R15, "R6": _rule_R6, "R14": _rule_R14, "R13": _rule_R13, "R1": _rule_R1, "R4": _rule_R4, "R4rev": _rule_R4rev, "R11": _rule_R11, "R8": _rule_R8, "R7": _rule_R7,
+RULES = {"R21": _rule_R21, "R20": _rule_R20, "R19": _rule_R19, "R18": _rule_R18, "R17": _rule_R17, "R16": _rule_R16, "R15": _rule_R15, "R6": _rule_R6, "R14": _rule_R14, "R13": _rule_R13, "R1": _rule_R1, "R4": _rule_R4, "R4rev": _rule_R4rev, "R11": _rule_R11, "R8": _rule_R8, "R7": _rule_R7,
          "R9": _rule_R9, "R12": _rule_R12}
 
 
